@@ -44,6 +44,17 @@ CHECKS = {
              "permitted integral case are converted and judged by TLC.",
         note="Observable = compiler verdicts and values; trusts g++ 12/clang++ 14, TLC, BigInt.  QuantityPoint's surface is covered under C01/C09.",
         technique="TLA+ trait-chain model checked by TLC + TLC-emitted cases compiled as trait queries/probes + value traces validated by TLC", ref="6/C06"),
+    "C11": dict(
+        text="TLC explores get_value_result for integral types on the scaled machine as a state machine (one action per loop iteration of "
+             "checked_int_pow and product, base cast, safe cast) over all one- and two-base magnitudes: outcome OK exactly when the exact "
+             "value fits, value exact, no intermediate overflow.  TLC then emits ~125 magnitudes (integers and powers straddling 2^7..2^64, "
+             "FLT/DBL/LDBL max/min/denormals, 64-bit primes incl. above 2^63, roots, pi) with the spec's classification; the library's "
+             "representable_in, get_value (integer value / float bits), is_integer, is_rational, numerator, denominator, integer_part, == "
+             "are read out for all 11 types and judged by TLC (BigInt, 40-digit pi enclosure, L-th power comparison for roots); "
+             "not-representable integral cases are compiled as get_value probes that must fail.",
+        note="'A few ulps' is read as relative 2^(5-p); values below the smallest normal are only required to be strictly positive when "
+             "handed out.  Magnitudes whose single base power overflows long double although the product is in range are outside the grid.",
+        technique="TLA+ loop-level model checked by TLC + read-outs of the real library validated by TLC (BigInt rationals, pi enclosure) + failing probes", ref="6/C11"),
 }
 
 
